@@ -52,6 +52,8 @@ class Profile:
         self.ovf_prob = rng.choice(b.get("ovf_prob", [0.0, 0.0, 0.03, 0.1]))
         self.base_one_prob = rng.choice(b.get("base_one_prob", [0.0, 0.0, 0.05, 0.1]))
         self.ovf_mid = b.get("ovf_mid", True)
+        self.poly_prob = rng.choice(b.get("poly_prob", [0.0, 0.05, 0.15]))
+        self.perm_points_prob = rng.choice(b.get("perm_points_prob", [0.0, 0.2, 0.4]))
         self.fresh_names = rng.random() < b.get("fresh_names_prob", 0.3)
         self.arm_prob = rng.choice(b.get("arm_prob", [0.1, 0.25, 0.25, 0.5]))
         self.miss_prob = rng.choice(b.get("miss_prob", [0.2, 0.4, 0.6]))
@@ -260,6 +262,29 @@ def gen_world(rng, pr):
                 cand = ({"op": "Divide"}, [pick_kid(), t])
             else:
                 cand = ({"op": "Power"}, [t, pick_kid()])
+        elif rng.random() < pr.poly_prob:
+            # distributive shapes: a sum of products of a variable (or small node) with small sums,
+            # x*(y+z) + x*(w+1) + ... -- the product / sum rules interact here in ways that isolated
+            # random operators rarely produce
+            leaves = [var_ids[v] for v in ord_vars + trip_vars] or [0]
+            terms = []
+            for _ in range(rng.randint(2, 3)):
+                left = rng.choice(leaves) if rng.random() < 0.8 else pick_kid()
+                summands = [rng.choice(leaves) if rng.random() < 0.75 else add({"op": "Constant", "value": _const(rng, pr)})
+                            for _ in range(rng.randint(2, 3))]
+                right = add({"op": "Add"}, summands)
+                if info[left][0] + 2 > pr.max_depth:
+                    left = rng.choice(leaves)
+                factors = [left, right] if rng.random() < 0.5 else [right, left]
+                if rng.random() < 0.2:
+                    factors.append(rng.choice(leaves))
+                terms.append(add({"op": "Multiply"}, factors))
+            if rng.random() < 0.3:
+                terms.append(rng.choice(leaves))
+            cand = ({"op": rng.choice(["Add", "Add", "Add", "Minus"])}, terms)
+            if cand[0]["op"] == "Minus":
+                cand = (cand[0], terms[:2])
+            special = True
         elif rng.random() < pr.base_one_prob:
             # Power whose variable-free base evaluates to exactly 1: the library short-cuts this case on
             # its numeric routes (one of its few special branches; defect F1 lived here)
@@ -394,6 +419,16 @@ def gen_points(rng, pr, ord_vars, trip_vars, miss_vars):
             coords.append(["unused_q", 7])
         rng.shuffle(coords)
         points.append(coords)
+    if len(points) >= 2 and rng.random() < pr.perm_points_prob:
+        # a point whose values are those of another point rotated among the names, written in the
+        # rotated order too: same sequence of values as written, different assignment
+        src = points[0]
+        if len(src) >= 2:
+            k = rng.randrange(1, len(src))
+            names = [c[0] for c in src]
+            vals = [c[1] for c in src]
+            rot = names[k:] + names[:k]
+            points[1] = [[n, v] for n, v in zip(rot, vals)]
     return points
 
 
